@@ -96,7 +96,8 @@ fn run(args: &[String]) -> i32 {
     if r.outcome != "ok" { eprintln!("prelude: {}", r.message); return 2; }
     for s in cases[0]["setup"].as_array().unwrap() {
         let r = run_input(&mut base, s.as_str().unwrap());
-        if r.outcome != "ok" { eprintln!("setup statement {s} failed: {}", r.message); return 2; }
+        // the specification predicts that every catalogue definition is accepted: a rejection is an observation
+        if r.outcome != "ok" { eprintln!("SETUP-REJECTED {}", serde_json::json!({"statement": s, "outcome": r.outcome, "kind": r.kind, "msg": r.message})); return 3; }
     }
     let dims: DimMap = numbat::verif::unit_table(&base).into_iter().map(|e| (e.name.clone(), e.dimension.clone())).collect();
     let results: Vec<J> = par_map(&cases[1..], threads, |c| {
@@ -141,7 +142,8 @@ fn run_infer(args: &[String]) -> i32 {
     if r.outcome != "ok" { eprintln!("prelude: {}", r.message); return 2; }
     for s in cases[0]["setup"].as_array().map(|a| a.to_vec()).unwrap_or_default() {
         let r = run_input(&mut base, s.as_str().unwrap());
-        if r.outcome != "ok" { eprintln!("setup statement {s} failed: {}", r.message); return 2; }
+        // the specification predicts that every catalogue definition is accepted: a rejection is an observation
+        if r.outcome != "ok" { eprintln!("SETUP-REJECTED {}", serde_json::json!({"statement": s, "outcome": r.outcome, "kind": r.kind, "msg": r.message})); return 3; }
     }
     let argtexts: Vec<String> = cases[0]["args"].as_array().unwrap().iter().map(|a| a.as_str().unwrap().to_string()).collect();
     let dims: DimMap = numbat::verif::unit_table(&base).into_iter().map(|e| (e.name.clone(), e.dimension.clone())).collect();
